@@ -228,6 +228,7 @@ class Run:
         self._ev0 = 0
         self.on_stop_runlogs: list = []
         self._hook_on_stop()
+        self._hook_error_state()
         if method is not None:
             self.lines = lines_of(method)
             self.engine.set_method(to_method(self.lines))
@@ -235,6 +236,17 @@ class Run:
             self.user("Start")
 
     # -- helpers -------------------------------------------------------------
+    def _hook_error_state(self):
+        """Record every entry into the error state (Engine.set_error_state) with its tick."""
+        run = self
+        self.error_events: list = []
+        orig = self.engine.set_error_state
+
+        def set_error_state(exception):
+            run.error_events.append((run.tickno, type(exception).__name__, str(exception)[:100]))
+            return orig(exception)
+        self.engine.set_error_state = set_error_state
+
     def _hook_on_stop(self):
         """Capture the run log at the moment emit_on_stop fires (that is when EngineRunner builds RunStoppedMsg)."""
         run = self
@@ -426,3 +438,62 @@ class Run:
         for (_, name, phase, iid, _) in self.cmd_events:
             d.setdefault(iid, [name]).append(phase)
         return d
+
+
+# ---------------------------------------------------------------------------
+# generic driver: a schedule is a list of (tick, request); requests are JSON-able tuples applied *before* that tick
+
+def apply_request(run: Run, req) -> dict:
+    kind = req[0]
+    if kind == "user":
+        return run.user(req[1])
+    if kind == "inject":
+        return run.inject(req[1])
+    if kind == "edit":
+        return run.set_method([tuple(x) for x in req[1]])
+    if kind in ("cancel", "force"):
+        # req[1] = index into the run log as it is at that moment, or a literal id string
+        iid = req[1]
+        item = None
+        if isinstance(iid, int):
+            try:
+                items = run.runlog_items()
+            except Exception:
+                items = []
+            if iid >= len(items):
+                rec = {"tick": run.tickno, "kind": kind, "id": None, "accepted": False, "error": "no-such-item", "skipped": True}
+                run.requests.append(rec)
+                return rec
+            item = items[iid]
+            iid = item["id"]
+        rec = run.cancel(iid) if kind == "cancel" else run.force(iid)
+        rec["item"] = item
+        return rec
+    if kind == "input":
+        run.set_input(req[1], req[2])
+        return {"kind": "input"}
+    if kind == "inc":
+        run.increment = req[1]
+        return {"kind": "inc"}
+    raise ValueError(req)
+
+
+def execute(program, schedule=(), horizon=30, inputs=None, observe=("tags", "mstate", "runlog", "updates"),
+            totalizer=True, start=True, wall_offset=0.037, stop_when=None) -> Run:
+    """Run `program` for `horizon` ticks, applying schedule requests before their tick.
+    inputs: {tick: {register: value}}."""
+    run = Run(program, totalizer=totalizer, start=start, observe=observe, wall_offset=wall_offset)
+    by_tick: dict[int, list] = {}
+    for t, req in schedule:
+        by_tick.setdefault(t, []).append(req)
+    run.request_records = []
+    for t in range(horizon):
+        if inputs and t in inputs:
+            for k, v in inputs[t].items():
+                run.set_input(k, v)
+        for req in by_tick.get(t, ()):
+            run.request_records.append(apply_request(run, req))
+        run.tick()
+        if stop_when is not None and stop_when(run):
+            break
+    return run
